@@ -12,6 +12,7 @@ package llrp
 
 import (
 	"context"
+	"encoding/hex"
 	"encoding/json"
 	"fmt"
 	"io"
@@ -26,7 +27,7 @@ type c08TimedReq struct {
 	TimeoutMs int      `json:"timeout_ms"`
 	SilentOn  string   `json:"silent_on"` // gsv | spv | none (control: everything answered)
 	KeepAlive bool     `json:"keepalive"`
-	Early     []string `json:"early"` // pre (before Connect) | gate (after the first message) | neg (after the peer read GetSupportedVersion)
+	Early     []string `json:"early"` // pre (before Connect) | gate (after the first message) | neg (after the peer read GetSupportedVersion) | pre-shutdown | neg-shutdown (a Shutdown at those points)
 	BudgetMs  int      `json:"budget_ms"`
 	// stalls: the peer sends only the first first_cut bytes of its first message (0 = nothing at all) / only the first reply_cut
 	// bytes of the reply named by silent_on, then goes quiet WITHOUT hanging up
@@ -66,6 +67,14 @@ func c08TimedRun(rq c08TimedReq) vsObs {
 		mu.Unlock()
 		go func() {
 			defer guard("caller " + name)
+			if typ == int(MsgCloseConnection) { // Shutdown: the third exported way in
+				if err := c.Shutdown(ctx); err == nil {
+					ch <- "ok"
+				} else {
+					ch <- vsClassify(err)
+				}
+				return
+			}
 			if nowait {
 				m, err := NewByteMessage(MessageType(typ), vsPayload(7, uint64(typ)))
 				if err == nil {
@@ -96,6 +105,10 @@ func c08TimedRun(rq c08TimedReq) vsObs {
 	}
 	if has("pre") {
 		startCaller("pre", 20, false)
+		time.Sleep(2 * time.Millisecond)
+	}
+	if has("pre-shutdown") {
+		startCaller("pre-shutdown", int(MsgCloseConnection), false)
 		time.Sleep(2 * time.Millisecond)
 	}
 	connRes := make(chan string, 1)
@@ -185,6 +198,8 @@ func c08TimedRun(rq c08TimedReq) vsObs {
 					partial(int(MsgSetProtocolVersionResponse), h.ID, vsStatusTLV(0))
 				}
 			case int(MsgKeepAliveAck):
+			case int(MsgCloseConnection): // a Shutdown: accept it (so that a wrongly released one shows up as "ok")
+				_ = write(int(MsgCloseConnectionResponse), h.ID, vsStatusTLV(0))
 			default: // a caller's request: answer it (so that a wrongly released SendMessage shows up as "ok")
 				_ = write((h.Typ+10)%1024, h.ID, vsPayload(4, 77))
 			}
@@ -215,6 +230,13 @@ func c08TimedRun(rq c08TimedReq) vsObs {
 		case <-time.After(budget):
 		}
 		startCaller("neg", 23, false)
+	}
+	if has("neg-shutdown") {
+		select {
+		case <-sawGSV:
+		case <-time.After(budget):
+		}
+		startCaller("neg-shutdown", int(MsgCloseConnection), false)
 	}
 
 	// ---- what happens
@@ -280,6 +302,248 @@ func TestVerifC08Timed(t *testing.T) {
 			continue
 		}
 		_ = enc.Encode(c08TimedRun(rq))
+		w.Flush()
+	}
+}
+
+// ------------------------------------------------------------------ half-closing reader (TestVerifC08HalfClose)
+//
+// Over loopback TCP the reader can end ITS side of the stream (FIN) in the middle of its first message and still read: so that
+// "the client writes nothing" is observed on bytes that really arrive, not only on Write calls that fail on a closed pipe. The
+// reader sends the first `cut` bytes of a first message whose header announces `announce` payload bytes (announce >= the payload
+// actually held: the surplus is never delivered), half-closes, and keeps reading until the client's attempt is over.
+// Demanded: Connect fails (a first message cut short by the end of the stream is no first message, however well-formed the
+// delivered part looks by itself), not one byte reaches the reader, early callers fail.
+
+type c08HalfReq struct {
+	ID         string   `json:"id"`
+	Version    int      `json:"version"`
+	TimeoutMs  int      `json:"timeout_ms"` // 0: a client without a timeout
+	Typ        int      `json:"typ"`
+	PayloadHex string   `json:"payload_hex"` // payload bytes the reader holds
+	Announce   int      `json:"announce"`    // payload length announced in the header
+	Cut        int      `json:"cut"`         // bytes of header+payload sent before the half-close
+	Early      []string `json:"early"`       // pre | gate
+	BudgetMs   int      `json:"budget_ms"`
+	GraceMs    int      `json:"grace_ms"`
+}
+
+func c08HalfRun(rq c08HalfReq) vsObs {
+	out := vsObs{"id": rq.ID}
+	budget := time.Duration(rq.BudgetMs) * time.Millisecond
+	var mu sync.Mutex
+	var panics []string
+	guard := func(what string) {
+		if r := recover(); r != nil {
+			mu.Lock()
+			panics = append(panics, fmt.Sprint(what, ": ", r))
+			mu.Unlock()
+		}
+	}
+	ln, err := net.Listen("tcp", "127.0.0.1:0")
+	if err != nil {
+		out["error"] = "listen: " + err.Error()
+		return out
+	}
+	defer ln.Close()
+	acc := make(chan net.Conn, 1)
+	go func() {
+		c, err := ln.Accept()
+		if err != nil {
+			acc <- nil
+			return
+		}
+		acc <- c
+	}()
+	cli, err := net.DialTimeout("tcp", ln.Addr().String(), 2*time.Second)
+	if err != nil {
+		out["error"] = "dial: " + err.Error()
+		return out
+	}
+	defer cli.Close()
+	var peer *net.TCPConn
+	select {
+	case p := <-acc:
+		if p == nil {
+			out["error"] = "accept failed"
+			return out
+		}
+		peer = p.(*net.TCPConn)
+	case <-time.After(2 * time.Second):
+		out["error"] = "accept timed out"
+		return out
+	}
+	defer peer.Close()
+
+	opts := []ClientOpt{WithLogger(nil)}
+	if rq.Version == 1 {
+		opts = append(opts, WithVersion(Version1_0_1))
+	} else {
+		opts = append(opts, WithVersion(Version1_1))
+	}
+	if rq.TimeoutMs > 0 {
+		opts = append(opts, WithTimeout(time.Duration(rq.TimeoutMs)*time.Millisecond))
+	}
+	c := NewClient(opts...)
+	ctx, cancel := context.WithCancel(context.Background())
+	defer cancel()
+	results := map[string]chan string{}
+	startCaller := func(name string, typ int, nowait bool) {
+		ch := make(chan string, 1)
+		results[name] = ch
+		go func() {
+			defer guard("caller " + name)
+			if nowait {
+				m, err := NewByteMessage(MessageType(typ), vsPayload(7, uint64(typ)))
+				if err == nil {
+					err = c.SendNoWait(ctx, m)
+				}
+				if err == nil {
+					ch <- "sent"
+				} else {
+					ch <- vsClassify(err)
+				}
+				return
+			}
+			_, _, err := c.SendMessage(ctx, MessageType(typ), vsPayload(6, uint64(typ)))
+			if err == nil {
+				ch <- "ok"
+			} else {
+				ch <- vsClassify(err)
+			}
+		}()
+	}
+	has := func(k string) bool {
+		for _, e := range rq.Early {
+			if e == k {
+				return true
+			}
+		}
+		return false
+	}
+	if has("pre") {
+		startCaller("pre", 20, false)
+		time.Sleep(2 * time.Millisecond)
+	}
+	connRes := make(chan string, 1)
+	go func() {
+		defer guard("Connect")
+		connRes <- vsClassify(c.Connect(cli))
+	}()
+
+	// the reader: part of its first message, FIN, and then it only listens
+	pl, _ := hex.DecodeString(rq.PayloadHex)
+	fr := vsBuildFrame(2, rq.Typ, 0, uint32(10+rq.Announce), pl)
+	k := rq.Cut
+	if k > len(fr) {
+		k = len(fr)
+	}
+	if k > 0 {
+		_ = peer.SetWriteDeadline(time.Now().Add(2 * time.Second))
+		if _, err := peer.Write(fr[:k]); err != nil {
+			out["error"] = "first bytes: " + err.Error()
+		}
+	}
+	if has("gate") {
+		time.Sleep(5 * time.Millisecond)
+		startCaller("gate", 22, true)
+		time.Sleep(5 * time.Millisecond)
+	}
+	got := make(chan []byte, 1)
+	stopRead := make(chan struct{})
+	go func() {
+		var all []byte
+		buf := make([]byte, 4096)
+		for {
+			select {
+			case <-stopRead:
+				got <- all
+				return
+			default:
+			}
+			_ = peer.SetReadDeadline(time.Now().Add(20 * time.Millisecond))
+			n, err := peer.Read(buf)
+			all = append(all, buf[:n]...)
+			if err != nil {
+				if ne, ok := err.(net.Error); ok && ne.Timeout() {
+					continue
+				}
+				got <- all
+				return
+			}
+		}
+	}()
+	if err := peer.CloseWrite(); err != nil {
+		out["error"] = "half-close: " + err.Error()
+	}
+
+	t0 := time.Now()
+	conn := "blocked"
+	select {
+	case conn = <-connRes:
+	case <-time.After(budget):
+	}
+	out["connect"] = conn
+	out["connect_ms"] = time.Since(t0).Milliseconds()
+	time.Sleep(time.Duration(rq.GraceMs) * time.Millisecond) // whatever the client has queued gets its chance to reach the wire
+	select {
+	case <-c.ready:
+		out["ready"] = true
+	default:
+		out["ready"] = false
+	}
+	out["closed"] = c.isClosed != 0
+	callers := vsObs{}
+	for name, ch := range results {
+		select {
+		case r := <-ch:
+			callers[name] = r
+		case <-time.After(300 * time.Millisecond):
+			callers[name] = "blocked"
+		}
+	}
+	out["callers"] = callers
+	close(stopRead)
+	var rcvd []byte
+	select {
+	case rcvd = <-got:
+	case <-time.After(time.Second):
+	}
+	out["bytes_received"] = len(rcvd)
+	var types []int
+	for p := rcvd; len(p) >= 10; {
+		h := vsParseHeader(p[:10])
+		types = append(types, h.Typ)
+		if h.LenField < 10 || int(h.LenField) > len(p) {
+			break
+		}
+		p = p[h.LenField:]
+	}
+	out["frame_types"] = types
+
+	cancel()
+	_ = c.Close()
+	_ = cli.Close()
+	_ = peer.Close()
+	mu.Lock()
+	if len(panics) > 0 {
+		out["panics"] = panics
+	}
+	mu.Unlock()
+	return out
+}
+
+func TestVerifC08HalfClose(t *testing.T) {
+	lines, w, done := verifIO(t)
+	defer done()
+	enc := json.NewEncoder(w)
+	for _, line := range lines {
+		var rq c08HalfReq
+		if err := json.Unmarshal([]byte(line), &rq); err != nil {
+			_ = enc.Encode(vsObs{"error": "bad request: " + err.Error()})
+			continue
+		}
+		_ = enc.Encode(c08HalfRun(rq))
 		w.Flush()
 	}
 }
